@@ -473,7 +473,6 @@ fn leaf_class(sch: &[Field], f: usize, op: Op, l: &Lit, in_list: bool, list_all_
     let k = &sch[f].kind;
     let v = &row.vals[f];
     let want = spec_leaf(k, v, op, l).flatten();
-    let _ = want;
     if let Lit::Flt(_) = l { return Some(if in_list { "in-list-float-literal" } else { "float-literal-dropped" }); }
     if let Lit::Str(s, _) = l {
         if matches!(k, Kind::Str | Kind::Enum(_) | Kind::Bool) && numeric_looking(s) && (!in_list || list_all_numeric) { return Some("string-literal-retyped"); }
@@ -485,7 +484,8 @@ fn leaf_class(sch: &[Field], f: usize, op: Op, l: &Lit, in_list: bool, list_all_
         if loc == Loc::Mem && matches!(v, Val::Flt(_)) { return Some("float-value-in-memtable"); }
         if loc == Loc::Zone && top && !in_list { return Some("float-column-simd-i64-path"); }
     }
-    if loc == Loc::Zone && !zone_kept(&(f, op, l.clone()), false) { return Some("leaf-zone-pruned"); }
+    // a zone dropped by a leaf matters only if this row satisfies the leaf
+    if loc == Loc::Zone && want == Some(true) && !zone_kept(&(f, op, l.clone()), false) { return Some("leaf-zone-pruned"); }
     None
 }
 
